@@ -1034,6 +1034,12 @@ func checkC19(w *World, r *Report) {
 					}
 				}
 			}
+			if !okH && hk != nil {
+				// the library form: return slices.Contains(m.Kinds, kind)
+				if ok, _ := w.returnsOnly(hk, `re:^call:slices\.Contains(\[.*\])?\(P0\.Kinds,P1\)$`); ok {
+					okH = true
+				}
+			}
 			r.Check(okH, "C19.R1", "Member.HasKind", "Member.HasKind(k) is true exactly when k is among the member's Kinds", w.fnPos(hk), "HasKind answers true for a kind the member did not register (or false for one it did)")
 		}
 		r.Check(okLoc, "C19.R1", fname(a.activate)+":local-test", "the chosen member is activated locally exactly when its Host is the engine's own address", site,
@@ -1534,6 +1540,9 @@ func checkC20(w *World, r *Report) {
 	msAdd := w.Method("cluster", "MemberSet", "Add")
 	msRem := w.Method("cluster", "MemberSet", "Remove")
 	for _, fn := range w.MethodsOf("cluster", "SelfManaged") {
+		if fn != recv && len(w.allocsOf(fn, w.Named("cluster", "memberLeave"))) > 0 {
+			evChild = fn // (a method, or a closure of one, that turns events into memberLeave)
+		}
 		if fn.Parent() != nil || fn == recv {
 			continue
 		}
@@ -1549,17 +1558,14 @@ func checkC20(w *World, r *Report) {
 				sendAgent = fn
 			}
 		}
-		if len(w.allocsOf(fn, w.Named("cluster", "memberLeave"))) > 0 {
-			evChild = fn
-		}
 	}
 	aliasRole(addM, "(*cluster.SelfManaged).addMembers")
 	aliasRole(remM, "(*cluster.SelfManaged).removeMember")
 	aliasRole(sendAgent, "(*cluster.SelfManaged).sendMembersToAgent")
 	aliasRole(evChild, "(*cluster.SelfManaged).handleEventStream")
-	if addM == nil || remM == nil || sendAgent == nil || evChild == nil {
-		r.Unknown("C20.R3", "roles", "add-members / remove-member / report-to-agent / event-child helpers", w.fnPos(recv),
-			fmt.Sprintf("add=%v remove=%v report=%v eventChild=%v", addM != nil, remM != nil, sendAgent != nil, evChild != nil))
+	_, _ = remM, sendAgent // optional helpers: the membership rules follow the effects, not the helper structure
+	if evChild == nil {
+		r.Unknown("C20.R4", "roles", "the event child that turns RemoteUnreachableEvent into memberLeave", w.fnPos(recv), "not found")
 		return
 	}
 	// R1: nil results
@@ -1618,155 +1624,10 @@ func checkC20(w *World, r *Report) {
 			r.Unknown("C20.R1", "nil-results", "uses of may-return-nil functions in package cluster", "-", "none found (GetByHost no longer returns nil?)")
 		}
 	}
-	g := w.FGI(recv)
 	site := w.fnPos(recv)
-	eSend := w.Method("actor", "Engine", "Send")
-	// R2
+	// R2, R3, R5: membership protocol of the provider (rules_cluster2.go)
+	checkC20Membership(w, r, recv, smT, addM)
 	{
-		hs := w.caseEdges(g, "*cluster.Handshake")
-		A := w.Nodes(g, Ev{Name: "add", M: EvCall("add", addM).M, Shallow: true}, false)
-		ok := len(hs) > 0
-		detail := "no Handshake case"
-		var sendN int = -1
-		for _, ci := range w.callsIn(recv, EvCall("Send", eSend)) {
-			n := g.idx[ci.(ssa.Instruction)]
-			if !g.OnlyVia(hs, n) {
-				continue
-			}
-			sendN = n
-			c := ci.Common()
-			tgt := w.pathOf(c.Args[1])
-			_, fs, lit := w.structLit(c.Args[2])
-			if tgt != "call:(*actor.Context).Sender(P1)" {
-				ok, detail = false, "the reply goes to "+tgt+" instead of the handshake's sender"
-			}
-			if !lit || w.pathOf(fs["Members"]) != "call:(*cluster.MemberSet).Slice(P0.members)" {
-				ok, detail = false, "the reply does not carry members.Slice()"
-			} else if sl, isI := fs["Members"].(ssa.Instruction); isI {
-				// the list is read after the peer was added
-				added := make([]bool, len(g.ins))
-				for _, an := range members(A) {
-					if g.OnlyVia(hs, an) && strings.HasSuffix(w.argOrVariadic(callOf(g.ins[an])), "#0.Member") {
-						added[an] = true
-					}
-				}
-				if !anyOf(added) || !g.Before(added, g.idx[sl]) {
-					ok, detail = false, "the member list is read before the handshaking peer was added: the peer does not learn about itself / the agent is not told"
-				}
-			}
-		}
-		if sendN < 0 {
-			ok, detail = false, "the Handshake case sends no reply"
-		} else {
-			rr := reachFromEdges(g, hs, setOf(len(g.ins), sendN))
-			for _, x := range g.returns {
-				if rr[x] {
-					ok, detail = false, "a Handshake can go unanswered"
-				}
-			}
-		}
-		r.Check(ok, "C20.R2", fname(recv)+":Handshake", "addMembers(msg.Member), then Send(c.Sender(), &Members{members.Slice()})", site, detail)
-		ms := w.caseEdges(g, "*cluster.Members")
-		okM := false
-		for _, an := range members(A) {
-			if len(ms) > 0 && g.OnlyVia(ms, an) && strings.HasSuffix(w.argOrVariadic(callOf(g.ins[an])), "#0.Members") {
-				okM = true
-				rr := reachFromEdges(g, ms, setOf(len(g.ins), an))
-				for _, x := range g.returns {
-					if rr[x] {
-						okM = false
-					}
-				}
-			}
-		}
-		r.Check(okM, "C20.R2", fname(recv)+":Members", "a received member list is added in full", site, "members learnt from a peer are dropped")
-		// Started: own member first
-		st := w.caseEdges(g, "actor.Started")
-		okS := false
-		for _, ci := range w.callsIn(recv, EvCall("Add", msAdd)) {
-			n := g.idx[ci.(ssa.Instruction)]
-			if len(st) > 0 && g.OnlyVia(st, n) && w.pathOf(ci.Common().Args[1]) == "call:(*cluster.Cluster).Member(P0.cluster)" {
-				okS = g.After(n, w.Nodes(g, EvCall("report", sendAgent), true))
-			}
-		}
-		r.Check(okS, "C20.R2", fname(recv)+":Started", "on start the provider adds its own member and reports the list to the agent", site, "the node is missing from its own membership view")
-	}
-	// R3
-	{
-		ag := w.FGI(addM)
-		r.Check(ag.AfterEntry(w.Nodes(ag, EvCall("report", sendAgent), true)), "C20.R3", fname(addM)+":reports", "adding members always ends with reporting the list to the agent", w.fnPos(addM), "the agent is not told about new members")
-		okAdd := false
-		for _, ci := range w.callsIn(addM, EvCall("Add", msAdd)) {
-			c := ci.Common()
-			if w.pathOf(c.Args[0]) == "P0.members" && strings.HasPrefix(w.pathOf(c.Args[1]), "P1[") {
-				okAdd = true
-			}
-		}
-		for _, in := range ag.ins {
-			if _, isGo := in.(*ssa.Go); isGo {
-				okAdd = false
-			}
-		}
-		// every listed member is visited: the loop is left only through its bound, and an unknown member is always added
-		{
-			bound, _ := ag.CondEdges(func(v ssa.Value) (bool, bool) {
-				b, ok := v.(*ssa.BinOp)
-				return true, ok && b.Op == token.LSS && w.pathOf(b.Y) == "len(P1)"
-			})
-			var exits []Edge
-			for _, e := range bound {
-				fe, _ := ag.EdgeOf(e.from, false)
-				exits = append(exits, fe)
-			}
-			for _, x := range ag.returns {
-				if len(exits) == 0 || !ag.OnlyVia(exits, x) {
-					okAdd = false
-				}
-			}
-			known, unknown := ag.CondEdges(func(v ssa.Value) (bool, bool) {
-				p := w.pathOf(v)
-				return true, strings.HasPrefix(p, "call:(*cluster.MemberSet).Contains(P0.members,P1[")
-			})
-			_ = known
-			A := w.Nodes(ag, Ev{Name: "a", M: EvCall("Add", msAdd).M, Shallow: true}, false)
-			for _, e := range unknown {
-				rr := ag.reach([]int{e.to}, A, nil)
-				for _, bnd := range bound {
-					if rr[bnd.from] {
-						okAdd = false
-					}
-				}
-				for _, x := range ag.returns {
-					if rr[x] {
-						okAdd = false
-					}
-				}
-			}
-		}
-		r.Check(okAdd, "C20.R3", fname(addM)+":adds-each", "every listed member is added to the provider's member set", w.fnPos(addM), "listed members are not added")
-		rg := w.FGI(remM)
-		r.Check(rg.AfterEntry(w.Nodes(rg, EvCall("report", sendAgent), true)), "C20.R3", fname(remM)+":reports", "removing a member always ends with reporting the list to the agent", w.fnPos(remM), "the agent is not told that a member is gone")
-		okRem := false
-		for _, ci := range w.callsIn(remM, EvCall("Remove", msRem)) {
-			c := ci.Common()
-			if w.pathOf(c.Args[0]) == "P0.members" && w.pathOf(c.Args[1]) == "P1" {
-				okRem = true
-			}
-		}
-		if okRem {
-			contains, _ := w.callEdges(rg, "call:(*cluster.MemberSet).Contains(P0.members,P1)")
-			R := w.Nodes(rg, Ev{Name: "rm", M: EvCall("Remove", msRem).M, Shallow: true}, false)
-			if len(contains) > 0 {
-				okRem = actionOnEdge(rg, contains, R)
-			} else {
-				okRem = rg.AfterEntry(R)
-			}
-			for _, in := range rg.ins {
-				if _, isGo := in.(*ssa.Go); isGo {
-					okRem = false
-				}
-			}
-		}
 		if gbh := w.Method("cluster", "MemberSet", "GetByHost"); gbh != nil {
 			hg := w.FGI(gbh)
 			okG := false
@@ -1801,24 +1662,8 @@ func checkC20(w *World, r *Report) {
 			r.Check(okG, "C20.R3", "MemberSet.GetByHost", "GetByHost returns a member whose Host equals the given address (nil if none)", w.fnPos(gbh),
 				"the member looked up for an unreachable address is not the one with that address: another member is removed")
 		}
-		r.Check(okRem, "C20.R3", fname(remM)+":removes-that-member", "exactly the given member is removed", w.fnPos(remM), "another member (or none) is removed")
-		// memberLeave case
-		ml := w.caseEdges(g, "cluster.memberLeave")
-		okL := false
-		detail := "no memberLeave case that removes the member found for msg.ListenAddr"
-		for _, ci := range w.callsIn(recv, EvCall("remove", remM)) {
-			n := g.idx[ci.(ssa.Instruction)]
-			arg := w.pathOf(ci.Common().Args[1])
-			if len(ml) > 0 && g.OnlyVia(ml, n) && strings.HasPrefix(arg, "call:(*cluster.MemberSet).GetByHost(P0.members,assert<cluster.memberLeave>(") && strings.HasSuffix(arg, "#0.ListenAddr)") {
-				okL = true
-			}
-		}
-		r.Check(okL, "C20.R3", fname(recv)+":memberLeave", "the member removed is the one GetByHost finds for the reported address", site, detail)
-		// report-to-agent: Send(engine, cluster.PID(), &Members{Slice()})
-		w.checkRow(r, row{rule: "C20.R3", fn: sendAgent, callee: EvCall("Send", eSend), name: "Engine.Send",
-			args: []string{"P0.cluster.engine", "call:(*cluster.Cluster).PID(P0.cluster)", "&lit:Members{Members=call:(*cluster.MemberSet).Slice(P0.members)}"},
-			why:  "The agent does not receive the provider's current member list."})
 	}
+
 	// R4
 	{
 		cg := w.FGI(evChild)
@@ -1856,7 +1701,7 @@ func checkC20(w *World, r *Report) {
 				asg := make([]bool, len(g2.ins))
 				for i, in := range g2.ins {
 					if st, isSt := in.(*ssa.Store); isSt {
-						if fa, isFA := st.Addr.(*ssa.FieldAddr); isFA && isFieldOf(fa, smT, "eventSubPID") && strings.Contains(w.pathOf(st.Val), "SpawnChildFunc(") && strings.Contains(w.pathOf(st.Val), fname(evChild)) {
+						if fa, isFA := st.Addr.(*ssa.FieldAddr); isFA && isFieldOf(fa, smT, "eventSubPID") && strings.Contains(w.pathOf(st.Val), "SpawnChildFunc(") && spawnsFunc(w, st.Val, evChild) {
 							asg[i] = true
 						}
 					}
@@ -1869,26 +1714,6 @@ func checkC20(w *World, r *Report) {
 			}
 		}
 		r.Check(okSub, "C20.R4", "SelfManaged:event-child-subscribed", "the event child is subscribed to the event stream", site, "the provider never hears about unreachable peers")
-	}
-	// R5
-	{
-		for _, c := range []struct {
-			typ string
-			h   *ssa.Function
-		}{{"*cluster.Handshake", addM}, {"*cluster.Members", addM}, {"cluster.memberLeave", nil}, {"cluster.memberPing", w.Method("cluster", "SelfManaged", "handleMemberPing")}} {
-			es := w.caseEdges(g, c.typ)
-			ok := len(es) > 0
-			if ok && c.h != nil {
-				H := w.Nodes(g, Ev{Name: "h", M: EvCall("h", c.h).M, Shallow: true}, false)
-				rr := reachFromEdges(g, es, H)
-				for _, x := range g.returns {
-					if rr[x] {
-						ok = false
-					}
-				}
-			}
-			r.Check(ok, "C20.R5", fname(recv)+":case "+c.typ, "the provider handles "+c.typ, site, "the provider ignores "+c.typ)
-		}
 	}
 }
 
@@ -1912,4 +1737,33 @@ func (w *World) argOrVariadic(c *ssa.CallCommon) string {
 		}
 	}
 	return w.pathOf(last)
+}
+
+
+// spawnsFunc: v is a SpawnChildFunc/SpawnFunc call whose function argument is fn itself, a method value
+// of it, or a closure that is fn or calls fn on all its paths.
+func spawnsFunc(w *World, v ssa.Value, fn *ssa.Function) bool {
+	c, ok := v.(*ssa.Call)
+	if !ok {
+		return false
+	}
+	for _, a := range c.Call.Args {
+		var f *ssa.Function
+		switch x := a.(type) {
+		case *ssa.MakeClosure:
+			f, _ = x.Fn.(*ssa.Function)
+		case *ssa.Function:
+			f = x
+		}
+		if f == nil {
+			continue
+		}
+		if f == fn || strings.Contains(w.pathOf(a), fname(fn)) {
+			return true
+		}
+		if w.mustDo(f, EvCall("child:"+fname(fn), fn), 0) {
+			return true
+		}
+	}
+	return false
 }
